@@ -4,7 +4,10 @@ import CifModel.Basic
 
   Written from the documentation of each result code in cif.h, independently of cif.c.  For every code name the
   spec lists groups of alternative keywords; a message describes the condition when, lower-cased, it contains at
-  least one keyword of every group.  A name the table does not know (a code added later) falls back to "contains
+  least one keyword of every group.  A group whose first word is `!` is a NEGATIVE group: none of its other words may
+  occur (used where the documented condition of one code is a strict refinement of another's wording, e.g. a loop
+  "with no data" against a loop "with no data names").  The groups are chosen so that no message of the pinned header
+  describes the condition of another code (`C20_discriminates`).  A name the table does not know (a code added later) falls back to "contains
   one of the words of the name that has ≥ 4 letters".
 -/
 namespace CifModel.Spec.ErrWords
@@ -35,16 +38,16 @@ def table : List (Str × List (List Str)) := [
   (a!"CIF_CLIENT_ERROR", [[a!"application", a!"client"]]),
   (a!"CIF_DUP_BLOCKCODE", [[a!"duplicate"], [a!"block"]]),
   (a!"CIF_INVALID_BLOCKCODE", [[a!"invalid"], [a!"block"]]),
-  (a!"CIF_NOSUCH_BLOCK", [[a!"no "], [a!"block"]]),
+  (a!"CIF_NOSUCH_BLOCK", [[a!"no data block", a!"no block", a!"no such block", a!"block does not exist"]]),
   (a!"CIF_DUP_FRAMECODE", [[a!"duplicate"], [a!"frame"]]),
   (a!"CIF_INVALID_FRAMECODE", [[a!"invalid"], [a!"frame"]]),
-  (a!"CIF_NOSUCH_FRAME", [[a!"no "], [a!"frame"]]),
+  (a!"CIF_NOSUCH_FRAME", [[a!"no save frame", a!"no frame", a!"no such frame", a!"frame does not exist"]]),
   (a!"CIF_CAT_NOT_UNIQUE", [[a!"categor"], [a!"uniqu"]]),
   (a!"CIF_INVALID_CATEGORY", [[a!"categor"], [a!"invalid"]]),
-  (a!"CIF_NOSUCH_LOOP", [[a!"no "], [a!"loop"]]),
-  (a!"CIF_RESERVED_LOOP", [[a!"scalar", a!"reserved"]]),
+  (a!"CIF_NOSUCH_LOOP", [[a!"no loop", a!"no such loop", a!"loop does not exist"]]),
+  (a!"CIF_RESERVED_LOOP", [[a!"scalar", a!"reserved"], [a!"loop"]]),
   (a!"CIF_WRONG_LOOP", [[a!"loop"], [a!"belong", a!"wrong"]]),
-  (a!"CIF_EMPTY_LOOP", [[a!"loop"], [a!"no data", a!"empty", a!"no packets"]]),
+  (a!"CIF_EMPTY_LOOP", [[a!"loop"], [a!"no data", a!"empty", a!"no packets"], [a!"!", a!"names", a!"items"]]),
   (a!"CIF_NULL_LOOP", [[a!"loop"], [a!"no data names", a!"no names", a!"no items"]]),
   (a!"CIF_DUP_ITEMNAME", [[a!"duplicate"], [a!"item", a!"name"]]),
   (a!"CIF_INVALID_ITEMNAME", [[a!"invalid"], [a!"item", a!"name"]]),
@@ -52,15 +55,15 @@ def table : List (Str × List (List Str)) := [
   (a!"CIF_AMBIGUOUS_ITEM", [[a!"several", a!"ambiguous", a!"multiple"]]),
   (a!"CIF_INVALID_PACKET", [[a!"packet"], [a!"not valid", a!"invalid"]]),
   (a!"CIF_PARTIAL_PACKET", [[a!"packet"], [a!"too few", a!"partial"]]),
-  (a!"CIF_DISALLOWED_VALUE", [[a!"value"]]),
+  (a!"CIF_DISALLOWED_VALUE", [[a!"value"], [a!"type", a!"kind", a!"disallowed", a!"not allowed"]]),
   (a!"CIF_INVALID_NUMBER", [[a!"number"]]),
-  (a!"CIF_INVALID_INDEX", [[a!"index"]]),
-  (a!"CIF_INVALID_BARE_VALUE", [[a!"bare", a!"quoted"]]),
+  (a!"CIF_INVALID_INDEX", [[a!"index"], [a!"valid"]]),
+  (a!"CIF_INVALID_BARE_VALUE", [[a!"bare", a!"without quot"], [a!"value"]]),
   (a!"CIF_INVALID_CHAR", [[a!"invalid"], [a!"character"]]),
   (a!"CIF_UNMAPPED_CHAR", [[a!"unmappable", a!"unmapped"]]),
-  (a!"CIF_DISALLOWED_CHAR", [[a!"character"], [a!"not allowed", a!"disallowed"]]),
+  (a!"CIF_DISALLOWED_CHAR", [[a!"character"], [a!"not allowed", a!"disallowed"], [a!"!", a!"first", a!"initial"]]),
   (a!"CIF_MISSING_SPACE", [[a!"space"], [a!"missing"]]),
-  (a!"CIF_MISSING_ENDQUOTE", [[a!"quote"]]),
+  (a!"CIF_MISSING_ENDQUOTE", [[a!"quote"], [a!"terminat", a!"missing", a!"closing", a!"unclosed"]]),
   (a!"CIF_UNCLOSED_TEXT", [[a!"terminated", a!"unclosed"], [a!"multi-line", a!"text"]]),
   (a!"CIF_OVERLENGTH_LINE", [[a!"line"], [a!"length", a!"long"]]),
   (a!"CIF_DISALLOWED_INITIAL_CHAR", [[a!"first", a!"initial"], [a!"character"]]),
@@ -69,7 +72,7 @@ def table : List (Str × List (List Str)) := [
   (a!"CIF_FRAME_NOT_ALLOWED", [[a!"frame"], [a!"disabled", a!"not allowed"]]),
   (a!"CIF_NO_FRAME_TERM", [[a!"terminator"], [a!"missing"]]),
   (a!"CIF_UNEXPECTED_TERM", [[a!"terminator"], [a!"expected"]]),
-  (a!"CIF_EOF_IN_FRAME", [[a!"end of"], [a!"frame"]]),
+  (a!"CIF_EOF_IN_FRAME", [[a!"end of"], [a!"frame"], [a!"inside", a!"within", a!"unterminated"]]),
   (a!"CIF_RESERVED_WORD", [[a!"reserved"]]),
   (a!"CIF_MISSING_VALUE", [[a!"missing"], [a!"value"]]),
   (a!"CIF_UNEXPECTED_VALUE", [[a!"unexpected"], [a!"value"]]),
@@ -91,7 +94,15 @@ def groupsFor (name : Str) : List (List Str) :=
   | some r => r.2
   | none => [nameWords name]
 
+/-- `!` -/
+def NEG : Str := [33]
+
+def groupHolds (msg : Str) (alts : List Str) : Bool :=
+  match alts with
+  | w :: rest => if w == NEG then !(rest.any (containsWord msg)) else alts.any (containsWord msg)
+  | [] => false
+
 def describes (name : Str) (msg : Str) : Bool :=
-  (groupsFor name).all (fun alts => alts.any (containsWord msg))
+  (groupsFor name).all (groupHolds msg)
 
 end CifModel.Spec.ErrWords
